@@ -1,4 +1,4 @@
-import Mutagen.Proofs.MuxNet
+import Mutagen.Proofs.MuxGood
 /-!
 # C24 — conforming multiplexers never tear each other down
 
@@ -56,111 +56,6 @@ theorem invariant_implies_accept (n : Net) (h : InvN n) (hal : n.alive) (w : Who
     (n.deliver w).2 = none :=
   h.deliver_ok hal w
 
-/-- Both multiplexers closed. -/
-def dead (n : Net) : Prop := n.a.closedMux = true ∧ n.b.closedMux = true
-
-/-- Either both are up and the invariant holds (no internal error recorded), or
-both are closed, and then the only errors ever recorded are "the carrier / the
-peer went away". -/
-def Good (n : Net) : Prop :=
-  (n.alive ∧ InvN n ∧ n.a.internalErr = none ∧ n.b.internalErr = none) ∨
-  (dead n ∧ (n.a.internalErr = none ∨ n.a.internalErr = some .carrier) ∧
-    (n.b.internalErr = none ∨ n.b.internalErr = some .carrier))
-
-theorem good_step (n : Net) (hg : Good n) (a : Action) : Good (n.step a) := by
-  rcases hg with ⟨hal, hi, hea, heb⟩ | ⟨hd, hea, heb⟩
-  · cases a with
-    | act w s =>
-      have hal' : (n.step (.act w s)).alive := by
-        cases w
-        · have := act_meta n.a s
-          simpa [Net.step, Net.side, Net.setSide, Net.send, Net.alive, this.closedMux] using hal
-        · have := act_meta n.b s
-          simpa [Net.step, Net.side, Net.setSide, Net.send, Net.alive, this.closedMux] using hal
-      refine Or.inl ⟨hal', hi.step hal _ hal', ?_, ?_⟩
-      · cases w
-        · have := act_meta n.a s
-          simpa [Net.step, Net.side, Net.setSide, Net.send, this.internalErr] using hea
-        · simpa [Net.step, Net.side, Net.setSide, Net.send] using hea
-      · cases w
-        · simpa [Net.step, Net.side, Net.setSide, Net.send] using heb
-        · have := act_meta n.b s
-          simpa [Net.step, Net.side, Net.setSide, Net.send, this.internalErr] using heb
-    | deliver w =>
-      have hok := hi.deliver_ok hal w
-      cases w with
-      | a =>
-        simp only [Net.step, Net.deliver, Net.inbox] at hok ⊢
-        cases hba : n.ba with
-        | nil => exact Or.inl (by simpa [hba] using ⟨hal, hi, hea, heb⟩)
-        | cons m rest =>
-          simp only [hba, Net.setInbox, Net.side, hal.1, Bool.false_eq_true, ↓reduceIte] at hok ⊢
-          cases hdl : n.a.deliver m with
-          | error e => simp [hdl] at hok
-          | ok a' =>
-            have hf := deliver_fields hdl hal.1
-            have hal' : Net.alive { n with ba := rest, a := a' } := ⟨by rw [hf.2.2.2.1]; exact hal.1, hal.2⟩
-            refine Or.inl ?_
-            simp only [hdl, Net.setSide]
-            exact ⟨hal', hi.deliver_a hal m rest hba a' hdl, by rw [hf.2.2.2.2.1]; exact hea, heb⟩
-      | b =>
-        simp only [Net.step, Net.deliver, Net.inbox] at hok ⊢
-        cases hab : n.ab with
-        | nil => exact Or.inl (by simpa [hab] using ⟨hal, hi, hea, heb⟩)
-        | cons m rest =>
-          simp only [hab, Net.setInbox, Net.side, hal.2, Bool.false_eq_true, ↓reduceIte] at hok ⊢
-          cases hdl : n.b.deliver m with
-          | error e => simp [hdl] at hok
-          | ok b' =>
-            have hf := deliver_fields hdl hal.2
-            have hal' : Net.alive { n with ab := rest, b := b' } := ⟨hal.1, by rw [hf.2.2.2.1]; exact hal.2⟩
-            refine Or.inl ?_
-            simp only [hdl, Net.setSide]
-            exact ⟨hal', hi.deliver_b hal m rest hab b' hdl, hea, by rw [hf.2.2.2.2.1]; exact heb⟩
-    | muxClose w =>
-      refine Or.inr ?_
-      cases w <;>
-        simp [Net.step, Net.fail, Net.side, Net.setSide, Who.peer, dead, hal.1, hal.2, hea, heb]
-  · refine Or.inr ?_
-    cases a with
-    | act w s =>
-      cases w
-      · have := act_meta n.a s
-        simpa [Net.step, Net.side, Net.setSide, Net.send, dead, this.closedMux, this.internalErr]
-          using ⟨hd, hea, heb⟩
-      · have := act_meta n.b s
-        simpa [Net.step, Net.side, Net.setSide, Net.send, dead, this.closedMux, this.internalErr]
-          using ⟨hd, hea, heb⟩
-    | deliver w =>
-      cases w with
-      | a =>
-        simp only [Net.step, Net.deliver, Net.inbox]
-        cases hba : n.ba with
-        | nil => exact ⟨hd, hea, heb⟩
-        | cons m rest =>
-          simp only [Net.setInbox, Net.side, hd.1, ↓reduceIte]
-          exact ⟨hd, hea, heb⟩
-      | b =>
-        simp only [Net.step, Net.deliver, Net.inbox]
-        cases hab : n.ab with
-        | nil => exact ⟨hd, hea, heb⟩
-        | cons m rest =>
-          simp only [Net.setInbox, Net.side, hd.2, ↓reduceIte]
-          exact ⟨hd, hea, heb⟩
-    | muxClose w =>
-      have hd1 := hd.1
-      have hd2 := hd.2
-      cases w <;> simp [Net.step, Net.fail, Net.side, Net.setSide, Who.peer, dead, hd1, hd2, hea, heb]
-
-theorem good_run (n : Net) (hg : Good n) (acts : List Action) : Good (n.run acts) := by
-  induction acts generalizing n with
-  | nil => exact hg
-  | cons a as ih => exact ih _ (good_step n hg a)
-
-theorem good_init (wa ka wb kb : Int) (ha : wa ≤ maxU64) (hb : wb ≤ maxU64) :
-    Good (Net.init wa ka wb kb) :=
-  Or.inl ⟨⟨rfl, rfl⟩, InvN.init wa ka wb kb ha hb, rfl, rfl⟩
-
 /-- **C24.** For every sequence of API actions on both sides (open, accept incl.
 stale/aborted, read with any buffer size incl. 0, write incl. empty, close-write,
 close, deadlines, rejected opens), every order of transmission of the pending
@@ -201,57 +96,30 @@ theorem never_torn_down (wa ka wb kb : Int) (ha : wa ≤ maxU64) (hb : wb ≤ ma
     · exact Or.inl h
     · exact h
   · intro hno
-    -- without an explicit close the system stays alive
-    have key : ∀ (acts : List Action) (n0 : Net), Good n0 → n0.alive →
-        (∀ a ∈ acts, ∀ w, a ≠ .muxClose w) → (n0.run acts).alive := by
-      intro acts
-      induction acts with
-      | nil => intro n0 _ hal _; exact hal
-      | cons a as ih =>
-        intro n0 hg0 hal0 hno0
-        have hg1 := good_step n0 hg0 a
-        have hal1 : (n0.step a).alive := by
-          rcases hg0 with ⟨_, hi, _, _⟩ | ⟨hd0, _, _⟩
-          · cases a with
-            | act w s =>
-              cases w
-              · have := act_meta n0.a s
-                simpa [Net.step, Net.side, Net.setSide, Net.send, Net.alive, this.closedMux] using hal0
-              · have := act_meta n0.b s
-                simpa [Net.step, Net.side, Net.setSide, Net.send, Net.alive, this.closedMux] using hal0
-            | deliver w =>
-              rcases hg1 with ⟨h1, _⟩ | ⟨hd1, _, _⟩
-              · exact h1
-              · -- a delivery never closes a multiplexer: it would have to reject
-                exfalso
-                have hok := hi.deliver_ok hal0 w
-                cases w with
-                | a =>
-                  simp only [Net.step, Net.deliver, Net.inbox] at hok hd1
-                  cases hba : n0.ba with
-                  | nil => simp [hba, dead, hal0.1] at hd1
-                  | cons m rest =>
-                    simp only [hba, Net.setInbox, Net.side, hal0.1, Bool.false_eq_true, ↓reduceIte] at hok hd1
-                    cases hdl : n0.a.deliver m with
-                    | error e => simp [hdl] at hok
-                    | ok a' =>
-                      have hf := deliver_fields hdl hal0.1
-                      simp [hdl, Net.setSide, dead, hf.2.2.2.1, hal0.1] at hd1
-                | b =>
-                  simp only [Net.step, Net.deliver, Net.inbox] at hok hd1
-                  cases hab : n0.ab with
-                  | nil => simp [hab, dead, hal0.1] at hd1
-                  | cons m rest =>
-                    simp only [hab, Net.setInbox, Net.side, hal0.2, Bool.false_eq_true, ↓reduceIte] at hok hd1
-                    cases hdl : n0.b.deliver m with
-                    | error e => simp [hdl] at hok
-                    | ok b' =>
-                      have hf := deliver_fields hdl hal0.2
-                      simp [hdl, Net.setSide, dead, hf.2.2.2.1, hal0.1, hal0.2] at hd1
-            | muxClose w => exact absurd rfl (hno0 _ List.mem_cons_self w)
-          · exact absurd hd0.1 (by simp [hal0.1])
-        exact ih _ hg1 hal1 (fun a' ha' => hno0 a' (List.mem_cons_of_mem _ ha'))
-    exact key acts _ (good_init wa ka wb kb ha hb) ⟨rfl, rfl⟩ hno
+    exact (reach_all _ ⟨rfl, rfl⟩ (InvN.init wa ka wb kb ha hb) (BInv.init wa ka wb kb) acts hno).1
+
+/-- **Window accounting** in every reachable state, for the data flowing from
+`a` to `b` on stream `X` (the mirror statement holds by symmetry of the
+invariant): data in flight + data buffered at `b` + `b`'s pending increment +
+increments in flight + `a`'s send window never exceed `b`'s receive window;
+and every increment, in flight or pending, is positive. -/
+theorem window_accounting (wa ka wb kb : Int) (ha : wa ≤ maxU64) (hb : wb ≤ maxU64)
+    (acts : List Action) (hno : ∀ a ∈ acts, ∀ w, a ≠ .muxClose w) (X : Nat) :
+    let n := (Net.init wa ka wb kb).run acts
+    dataBytes X (onlyAbout X n.ab) + bufOf (n.b.streams X) + n.b.pendOf X +
+        incrSum X (onlyAbout X n.ba) + swOf (n.a.streams X) ≤ capOf (n.b.streams X) ∧
+      (∀ amt, Msg.incr X amt ∈ n.ba → 0 < amt) ∧ (∀ v, n.b.pendIncr X = some v → 0 < v) := by
+  intro n
+  obtain ⟨_, hi, _⟩ := reach_all _ ⟨rfl, rfl⟩ (InvN.init wa ka wb kb ha hb) (BInv.init wa ka wb kb) acts hno
+  have hmem : ∀ amt, Msg.incr X amt ∈ n.ba → Msg.incr X amt ∈ onlyAbout X n.ba := by
+    intro amt hm
+    exact List.mem_filter.mpr ⟨hm, by simp [Msg.about, Msg.id]⟩
+  by_cases ho : n.a.isOutbound X = true
+  · have hf := (hi.inv.per_a X ho).flowOP
+    exact ⟨hf.window, fun amt hm => hf.incr_pos amt (hmem amt hm), hf.pend_pos⟩
+  · have hob : n.b.isOutbound X = true := by rw [outbound_xor hi.inv]; simpa using ho
+    have hf := (hi.inv.per_b X hob).flowPO
+    exact ⟨hf.window, fun amt hm => hf.incr_pos amt (hmem amt hm), hf.pend_pos⟩
 
 /-- Non-vacuity: a concrete run that exercises open, accept, data, a
 zero-length read with data buffered, a real read, the increment and its
